@@ -107,16 +107,26 @@ KINDS = {k['name']: k for k in session_kinds()}
 DIMS = ('width', 'addpath', 'nexthop', 'peering', 'aigp')
 
 
-def build_session(sk):
-    """same construction as c02 / c03: real configuration parser, our OPEN, mirrored peer OPEN, Negotiated"""
+def build_neighbor(sk):
+    """the configured neighbor (real configuration parser); no OPEN is exchanged yet"""
     from exabgp.util.enumeration import TriState
 
     nb = corpus.all_families_neighbor(las=65000, pas=65000 if sk['ibgp'] else 65001, asn4=True, addpath=sk['addpath'], adj_rib_in=True)
     if not sk['nexthop']:
         nb.capability.nexthop = TriState.FALSE
     nb.capability.aigp = TriState.TRUE if sk['aigp'] else TriState.FALSE  # the session option AIGP.unpack_attribute reads
-    neg = corpus.mirror_session(nb, peer_asn4=sk['asn4'])
-    return nb, neg
+    return nb
+
+
+def negotiate(nb, sk):
+    """same construction as c02 / c03: our OPEN, mirrored peer OPEN, Negotiated. Run in the forked children only: the
+    negotiation of the OTHER sessions is part of the history a decode must not depend on"""
+    return corpus.mirror_session(nb, peer_asn4=sk['asn4'])
+
+
+def build_session(sk):
+    nb = build_neighbor(sk)
+    return nb, negotiate(nb, sk)
 
 
 def pair_label(prev: str, cur: str) -> str:
@@ -618,8 +628,15 @@ def child_sequence(steps: list, sessions: dict, caching: bool, monitor: str, ful
                 mutated.append({'i': i, 'by': by, 'names': names, 'was': {k: deeps[i].get(k) for k in names[:3]}, 'now': {k: now.get(k) for k in names[:3]}})
             deeps[i] = now
 
+    negotiated: dict = {}
     for j, step in enumerate(steps):
-        nb, neg = sessions[step['k']]
+        nb = sessions[step['k']][0]
+        if step['k'] not in negotiated:
+            # the session comes up when its first message arrives, in the middle of the others' traffic
+            negotiated[step['k']] = negotiate(nb, KINDS[step['k']])
+            if bool(negotiated[step['k']].asn4) != KINDS[step['k']]['asn4']:
+                return {'harness_error': f'session {step["k"]}: negotiated asn4={negotiated[step["k"]].asn4}'}
+        neg = negotiated[step['k']]
         del calls[:]
         cur[0] = j
         msg, outcome = decode(step['t'], bytes.fromhex(step['b']), neg)
@@ -808,13 +825,12 @@ def run_shard(desc):
         for n in range(desc['sequences']):
             length = desc['length'] if n == 0 else r.choice([50, 120, 250, desc['length']])
             plan_seqs.append((caching, make_sequence(r, uni, length)))
-    # ---- the pristine template: ExaBGP imported, sessions negotiated, encoders built, no message decoded
+    # ---- the pristine template: ExaBGP imported, neighbors configured, encoders built, no OPEN exchanged, no message decoded.
+    # Sessions are negotiated inside the children: a fresh child negotiates the one session its message arrives on, a
+    # sequence child negotiates each session when its first message arrives.
     sessions = {}
     for name in uni['sessions']:
-        sessions[name] = build_session(KINDS[name])
-        if bool(sessions[name][1].asn4) != KINDS[name]['asn4']:
-            res.inconclusive.append(f'session {name}: negotiated asn4={sessions[name][1].asn4}')
-            return res
+        sessions[name] = (build_neighbor(KINDS[name]), None)
     if AttributeCollection.cached is not None or AttributeCollection.previous:
         res.inconclusive.append('the template is not pristine: the attribute cache is populated before the first message')
         return res
